@@ -86,6 +86,20 @@ Theorem C10_oversize_is_never_a_connection_error :
   forall c own ps bs fs code, wf_bytes bs -> readable bs fs -> recv_section true c own ps bs <> RecvConnError code.
 Proof. exact recv_never_connection_error. Qed.
 
+(* the configured limit reaches every handle the API can produce unchanged: primary and cloned SendRequest (clone
+   taken before or after the peer's SETTINGS), the streams they create, the server's resolver and request stream, and the
+   receive half of split(); each hop's source expression is read from the Rust code (the lim_flow facts of Gen/GenLimits.v) *)
+Theorem C10_own_limit_reaches_every_handle :
+  forall h configured ps, own_at h configured ps = configured.
+Proof. exact own_limit_reaches_every_handle. Qed.
+
+(* early cancel: once the lines read so far exceed the limit the section is refused as too big - stream scope - whatever
+   follows (a truncated or undecodable tail is never looked at).  [reads r fs t]: r decodes to the fields fs, leaving t *)
+Theorem C10_oversize_wins_over_undecodable_tail :
+  forall L bs delta r fs t, wf_bytes bs -> hp_decode bs = Ok (0, false, delta, r) -> reads r fs t -> L < section_size fs ->
+    exists n, L < n /\ decode_stateless (Some L) bs = Err (DHeaderTooLong n).
+Proof. exact oversize_wins_over_bad_tail. Qed.
+
 (* ---- T3: send, for every limit and every field list ---- *)
 Theorem C10_limit_in_force :
   limit_in_force None = 2 ^ 62 - 1 /\ limit_in_force (Some None) = 2 ^ 62 - 1 /\
@@ -138,6 +152,8 @@ Print Assumptions C10_refusal_is_status_431_of_size_42.
 Print Assumptions C10_client_response_too_big_stops_sending.
 Print Assumptions C10_trailers_both_roles.
 Print Assumptions C10_oversize_is_never_a_connection_error.
+Print Assumptions C10_own_limit_reaches_every_handle.
+Print Assumptions C10_oversize_wins_over_undecodable_tail.
 Print Assumptions C10_limit_in_force.
 Print Assumptions C10_send_sites_exact.
 Print Assumptions C10_never_sends_more_than_the_limit_in_force.
